@@ -529,6 +529,32 @@ def gen_unmarshal_harnesses(prefix, kind, info, syntax):
     L.append('\twant = append(want, known...)\n\twant = append(want, u1...)\n\twant = append(want, u2...)')
     L.append('\tpbC07(m, want)')
     L.append('}')
+    # C07, repeated fields: unknown fields immediately before and after a packed run (and an unpacked occurrence)
+    if is_numeric(kind):
+        for rf in reps:
+            rnum = nums[rf.lower()]
+            L.append(f'func H_C07_{msg}_{rf}() {{')
+            for v in ("v1", "v2", "v3"):
+                L.append(f'\t{v} := {val(v)}')
+                if wire == "varint" and k != "Bool":
+                    L.append(f'\tverifAssume({v} >= 0)\n\tverifAssume({v} < 64) // value sizes are not this property\'s subject')
+            L.append('\tu1, u2 := pbUnknown(3), pbUnknown(2)')
+            L.append('\tpl := make([]byte, 0, 64)')
+            for v in ("v1", "v2"):
+                L.append('\t' + append_value(kind, "pl", v))
+            L.append('\tin := make([]byte, 0, 256)')
+            L.append('\tin = append(in, u1...)')
+            L.append(f'\tin = protowire.AppendBytes(protowire.AppendTag(in, {rnum}, protowire.BytesType), pl)')
+            L.append('\tin = append(in, u2...)')
+            L.append('\t' + keyed("in", rnum, "v3"))
+            L.append(f'\tm := &{msg}{{}}')
+            L.append('\tverifAssert(m.Unmarshal(in) == nil, "Unmarshal accepts unknown fields around a packed run")')
+            L.append(f'\tref := &{msg}{{}}')
+            L.append(f'\tref.{rf} = append(ref.{rf}, v1, v2, v3)')
+            L.append(f'\twant := exp_{msg}(make([]byte, 0, 256), ref)')
+            L.append('\twant = append(want, u1...)\n\twant = append(want, u2...)')
+            L.append('\tpbC07(m, want)')
+            L.append('}')
     return "\n".join(L) + "\n\n"
 
 
